@@ -638,6 +638,137 @@ fn nonfinite_stream(out: &mut Out, rng: &mut SplitMix64)
     }
 }
 
+// ------------------------------------------------------------------------------------------------
+// the QuState level: every public trait method that takes a gate or an operand list, called DIRECTLY on both
+// representations (Circuit only ever passes H, S, Sdg to apply_unary_gate_all, validated qubits, a register of the
+// right length, …)
+
+fn qs_call<Q: q1tsim::qustate::QuState>(st: &mut Q, call: &str, res: &mut ndarray::Array1<u64>, seed: u64)
+    -> (Option<q1tsim::error::Result<()>>, Vec<q1tsim::verif::Draw>)
+{
+    let mut rng = rand_hc::Hc128Rng::seed_from_u64(seed);
+    q1tsim::verif::draws_start();
+    let r = {
+        let st = AssertUnwindSafe(&mut *st);
+        let res = AssertUnwindSafe(&mut *res);
+        let rng = AssertUnwindSafe(&mut rng);
+        catch_unwind(move || {
+            let AssertUnwindSafe(st) = st; let AssertUnwindSafe(res) = res; let AssertUnwindSafe(rng) = rng;
+            let mut it = call.split_whitespace();
+            let kind = it.next().unwrap();
+            fn nat(it: &mut std::str::SplitWhitespace) -> usize { it.next().expect("nat").parse().expect("nat") }
+            fn list(it: &mut std::str::SplitWhitespace) -> Vec<usize> { let k = nat(it); (0..k).map(|_| nat(it)).collect() }
+            match kind
+            {
+                "apply_gate" => { let bits = list(&mut it); let g = gate::parse(&mut it); st.apply_gate(&g, &bits) },
+                "apply_unary_gate_all" => { let g = gate::parse(&mut it); st.apply_unary_gate_all(&g) },
+                "apply_conditional_gate" => {
+                    let control: Vec<bool> = list(&mut it).iter().map(|&b| b != 0).collect();
+                    let bits = list(&mut it); let g = gate::parse(&mut it);
+                    st.apply_conditional_gate(&control, &g, &bits)
+                },
+                "measure_into" => { let q = nat(&mut it); let c = nat(&mut it); st.measure_into(q, c, res, rng) },
+                "peek_into" => { let q = nat(&mut it); let c = nat(&mut it); st.peek_into(q, c, res, rng) },
+                "measure_all_into" => { let l = list(&mut it); st.measure_all_into(&l, res, rng) },
+                "peek_all_into" => { let l = list(&mut it); st.peek_all_into(&l, res, rng) },
+                "reset" => { let q = nat(&mut it); st.reset(q, rng) },
+                "reset_all" => { st.reset_all(); Ok(()) },
+                other => panic!("unknown QuState call {}", other)
+            }
+        }).ok()
+    };
+    (r, q1tsim::verif::draws_take())
+}
+
+fn qs_outcome(r: &Option<q1tsim::error::Result<()>>) -> String
+{
+    match r { None => "panic".to_string(), Some(Ok(())) => "ok".to_string(), Some(Err(e)) => show_err(e) }
+}
+
+/// one call on one representation: the `qs` line, and the outcome for the `qpair` line
+fn qs_one<Q: q1tsim::qustate::QuState>(out: &mut Out, st: &mut Q, call: &str, res: &mut ndarray::Array1<u64>, seed: u64) -> String
+{
+    let pre = show_snapshot(&st.verif_snapshot());
+    let pre_reg = res.to_vec();
+    let (r, draws) = qs_call(st, call, res, seed);
+    let o = qs_outcome(&r);
+    let ans = if o == "ok" { format!("ok | {} | {}", show_snapshot(&st.verif_snapshot()), join(&res.to_vec())) } else { o.clone() };
+    out.case(&format!("qs | {} | {} | {} | {}", call, pre, join(&pre_reg), show_draws(&draws)), &ans);
+    o
+}
+
+fn qustate_stream(out: &mut Out, rng: &mut SplitMix64)
+{
+    use q1tsim::stabilizer::StabilizerState;
+    use q1tsim::vectorstate::VectorState;
+    let gates: [(&str, usize); 8] = [("Comp nop 0 0", 0), ("H", 1), ("X", 1), ("S", 1), ("T", 1), ("Comp c 1 1 H 1 0", 1), ("CX", 2), ("Swap", 2)];
+    for &(n, shots) in [(1usize, 1usize), (1, 3), (2, 2), (3, 3), (2, 0), (0, 2)].iter()
+    {
+        let mut calls: Vec<(String, usize)> = vec![];          // (call, length of the register handed in)
+        for (g, ar) in gates.iter()
+        {
+            calls.push((format!("apply_unary_gate_all {}", g), shots));
+            // operand lists: right, empty, one short, one long, repeated, descending, one past the register
+            let mut lists: Vec<Vec<usize>> = vec![(0..*ar).map(|i| i % n.max(1)).collect(), vec![], (0..ar + 1).map(|i| i % n.max(1)).collect()];
+            if *ar >= 1 { lists.push((0..ar - 1).collect()); lists.push(vec![0; *ar]); lists.push((0..*ar).rev().collect()); lists.push((0..*ar).map(|i| if i == 0 { n } else { i - 1 }).collect()); }
+            lists.dedup();
+            for l in lists.iter()
+            {
+                if *ar <= n || l.len() != *ar { calls.push((format!("apply_gate {} {}", list_text(l), g), shots)); }
+                let ctl: Vec<usize> = (0..shots).map(|i| i % 2).collect();
+                calls.push((format!("apply_conditional_gate {} {} {}", list_text(&ctl), list_text(l), g), shots));
+            }
+            // control slices of the wrong length
+            let l0: Vec<usize> = (0..*ar).map(|i| i % n.max(1)).collect();
+            for cl in [shots + 1, shots.saturating_sub(1), 0].iter()
+            {
+                if *cl == shots { continue; }
+                let ctl: Vec<usize> = vec![1; *cl];
+                calls.push((format!("apply_conditional_gate {} {} {}", list_text(&ctl), list_text(&l0), g), shots));
+            }
+        }
+        for reg_len in [shots, shots + 2, shots.saturating_sub(1)].iter()
+        {
+            for q in [0usize, n.saturating_sub(1), n].iter()
+            {
+                for c in [0usize, 63, 64].iter()
+                {
+                    calls.push((format!("measure_into {} {}", q, c), *reg_len));
+                    calls.push((format!("peek_into {} {}", q, c), *reg_len));
+                }
+                calls.push((format!("reset {}", q), *reg_len));
+            }
+            let lists: Vec<Vec<usize>> = vec![(0..n).collect(), (0..n).rev().collect(), (0..n + 1).collect(), (0..n.saturating_sub(1)).collect(),
+                (0..n).map(|i| 63 + i).collect(), vec![0; n]];
+            for l in lists.iter()
+            {
+                calls.push((format!("measure_all_into {}", list_text(l)), *reg_len));
+                calls.push((format!("peek_all_into {}", list_text(l)), *reg_len));
+            }
+            calls.push(("reset_all".to_string(), *reg_len));
+        }
+        calls.dedup();
+        for (call, reg_len) in calls.iter()
+        {
+            // a short valid prelude, the same on both representations
+            let prelude: Vec<String> = if n == 0 { vec![] } else { match rng.below(3) { 0 => vec![], 1 => vec!["apply_gate 1 0 H".to_string()],
+                _ => if n >= 2 { vec!["apply_gate 1 0 H".to_string(), "apply_gate 2 0 1 CX".to_string()] } else { vec!["apply_gate 1 0 X".to_string()] } } };
+            let mut v = VectorState::new(n, shots);
+            let mut s = StabilizerState::new(n, shots);
+            let mut rv = ndarray::Array1::<u64>::zeros(*reg_len);
+            let mut rs = ndarray::Array1::<u64>::zeros(*reg_len);
+            for p in prelude.iter() { qs_one(out, &mut v, p, &mut rv, 1); qs_one(out, &mut s, p, &mut rs, 1); }
+            let seed = rng.next();
+            let ov = qs_one(out, &mut v, call, &mut rv, seed);
+            let os = qs_one(out, &mut s, call, &mut rs, seed);
+            // once more on the same objects (a failed call followed by normal use)
+            let ov2 = if ov == "panic" { "skipped".to_string() } else { qs_one(out, &mut v, "apply_unary_gate_all H", &mut rv, 2) };
+            let os2 = if os == "panic" { "skipped".to_string() } else { qs_one(out, &mut s, "apply_unary_gate_all H", &mut rs, 2) };
+            out.case(&format!("qpair {} {} {} | {} | v {} | s {} | v2 {} | s2 {}", n, shots, reg_len, call, ov, os, ov2, os2), "ok");
+        }
+    }
+}
+
 fn main()
 {
     let dir = std::env::args().nth(1).expect("usage: c18 <outdir>");
@@ -658,6 +789,7 @@ fn main()
     macro_stream(&mut out);
     sibling_stream(&mut out, &mut rng);
     nonfinite_stream(&mut out, &mut rng);
+    qustate_stream(&mut out, &mut rng);
 
     let nseq = if thorough() { 2500 } else { 420 };
     for iseq in 0..nseq
